@@ -257,3 +257,311 @@ Proof.
   - destruct (sp_mem_size m) as [q|] eqn:E2; [|reflexivity].
     apply sp_mem_size_iff, mem_bytes_iff in E2. congruence.
 Qed.
+
+(* ---------------------------------------------------------------- split / join *)
+Lemma split_char_nonempty c x : split_char c x <> [].
+Proof.
+  induction x as [|d x IH]; cbn; [discriminate|].
+  destruct (Ascii.eqb c d); [discriminate|]. destruct (split_char c x); discriminate.
+Qed.
+
+Lemma split_char_app c a b : ~ In c a -> split_char c (a ++ c :: b) = a :: split_char c b.
+Proof.
+  induction a as [|d a IH]; intros H; cbn.
+  - now rewrite Ascii.eqb_refl.
+  - destruct (Ascii.eqb c d) eqn:E.
+    + apply Ascii.eqb_eq in E; subst. exfalso; apply H; left; reflexivity.
+    + rewrite IH; [reflexivity|]. intros Hi; apply H; right; exact Hi.
+Qed.
+
+Lemma split_char_none c a : ~ In c a -> split_char c a = [a].
+Proof.
+  induction a as [|d a IH]; intros H; cbn; [reflexivity|].
+  destruct (Ascii.eqb c d) eqn:E.
+  - apply Ascii.eqb_eq in E; subst. exfalso; apply H; left; reflexivity.
+  - rewrite IH; [reflexivity|]. intros Hi; apply H; right; exact Hi.
+Qed.
+
+(* general: appending two strings at a separator concatenates the word lists *)
+Lemma split_char_app_gen c a b : split_char c (a ++ c :: b) = split_char c a ++ split_char c b.
+Proof.
+  induction a as [|d a IH]; cbn.
+  - now rewrite Ascii.eqb_refl.
+  - destruct (Ascii.eqb c d) eqn:E.
+    + rewrite IH. reflexivity.
+    + rewrite IH. destruct (split_char c a) as [|h r] eqn:Ea; [now apply split_char_nonempty in Ea|].
+      reflexivity.
+Qed.
+
+Lemma join_split c x : join [c] (split_char c x) = x.
+Proof.
+  induction x as [|d x IH]; cbn; [reflexivity|].
+  destruct (Ascii.eqb c d) eqn:E.
+  - apply Ascii.eqb_eq in E; subst d.
+    destruct (split_char c x) as [|h r] eqn:Ex; [now apply split_char_nonempty in Ex|].
+    cbn [join]. cbn. f_equal. exact IH.
+  - destruct (split_char c x) as [|h r] eqn:Ex; [now apply split_char_nonempty in Ex|].
+    destruct r as [|h2 r]; cbn in *; f_equal; exact IH.
+Qed.
+
+(* ---------------------------------------------------------------- wall time strings *)
+Lemma two_digits_spec x r : two_digits x = Some r <->
+  exists a b, x = a :: b :: r /\ is_digit a = true /\ is_digit b = true.
+Proof.
+  unfold two_digits. split.
+  - destruct x as [|a [|b x]]; try discriminate.
+    destruct (is_digit a) eqn:Ha; [|discriminate]. destruct (is_digit b) eqn:Hb; [|discriminate].
+    cbn. intros H; inversion H; subst. eauto.
+  - intros (a & b & -> & Ha & Hb). now rewrite Ha, Hb.
+Qed.
+
+Lemma colon_spec x r : colon x = Some r <-> x = ":"%char :: r.
+Proof.
+  unfold colon. split.
+  - destruct x as [|c x]; [discriminate|]. destruct (Ascii.eqb c ":"%char) eqn:E; [|discriminate].
+    apply Ascii.eqb_eq in E; subst. intros H; inversion H; reflexivity.
+  - intros ->. reflexivity.
+Qed.
+
+Lemma g_dd_colon_spec x r : g_dd_colon x = Some r <-> exists m, dd m /\ x = m ++ ":"%char :: r.
+Proof.
+  unfold g_dd_colon. split.
+  - destruct (two_digits x) as [y|] eqn:E; [|discriminate]. intros H. apply colon_spec in H. subst y.
+    apply two_digits_spec in E as (a & b & -> & Ha & Hb). exists [a; b]. split; [|reflexivity].
+    exists a, b. auto.
+  - intros (m & (a & b & -> & Ha & Hb) & ->). cbn. rewrite Ha, Hb. reflexivity.
+Qed.
+
+Lemma g_dplus_colon_spec x r : g_dplus_colon x = Some r <-> exists d, all_digits d /\ x = d ++ ":"%char :: r.
+Proof.
+  unfold g_dplus_colon. split.
+  - destruct (span is_digit x) as [d y] eqn:E. apply span_spec in E as (-> & Hd & _).
+    destruct d as [|c d]; [discriminate|]. intros H. apply colon_spec in H. subst y.
+    exists (c :: d). split; [split; [discriminate|exact Hd]|reflexivity].
+  - intros (d & [Hn Hd] & ->).
+    rewrite (span_app is_digit d (":"%char :: r) Hd)
+      by (right; eexists _, _; split; [reflexivity|apply colon_not_digit]).
+    destruct d; [contradiction|]. reflexivity.
+Qed.
+
+Lemma tail_mmss_spec x : tail_mmss x = true <-> exists m ss, dd m /\ dd ss /\ x = m ++ ":"%char :: ss.
+Proof.
+  unfold tail_mmss. split.
+  - destruct (g_dd_colon x) as [r|] eqn:E; [|discriminate]. apply g_dd_colon_spec in E as (m & Hm & ->).
+    destruct (two_digits r) as [[|? ?]|] eqn:E2; try discriminate. intros _.
+    apply two_digits_spec in E2 as (a & b & -> & Ha & Hb). exists m, [a; b]. repeat split; auto.
+    exists a, b; auto.
+  - intros (m & ss & Hm & (a & b & -> & Ha & Hb) & ->).
+    rewrite (proj2 (g_dd_colon_spec _ [a; b])) by eauto. cbn. now rewrite Ha, Hb.
+Qed.
+
+Definition t2 (x : str) : Prop := exists m ss, dd m /\ dd ss /\ x = m ++ ":"%char :: ss.
+Definition t3dd (x : str) : Prop :=
+  exists h m ss, dd h /\ dd m /\ dd ss /\ x = h ++ ":"%char :: m ++ ":"%char :: ss.
+
+Lemma after_g1_spec x : after_g1 x = true <-> t3dd x \/ t2 x.
+Proof.
+  unfold after_g1. rewrite orb_true_iff, tail_mmss_spec. fold (t2 x). split.
+  - intros [H|H]; [left|right; exact H].
+    destruct (g_dd_colon x) as [r|] eqn:E; [|discriminate]. apply g_dd_colon_spec in E as (h & Hh & ->).
+    apply tail_mmss_spec in H as (m & ss & Hm & Hs & ->). exists h, m, ss. auto.
+  - intros [(h & m & ss & Hh & Hm & Hs & ->)|H]; [left|right; exact H].
+    rewrite (proj2 (g_dd_colon_spec _ (m ++ ":"%char :: ss))) by eauto.
+    apply tail_mmss_spec. exists m, ss. auto.
+Qed.
+
+Lemma dd_no_colon m : dd m -> ~ In ":"%char m.
+Proof. intros H. apply dd_all_digits in H as [_ H]. apply digits_no; [apply colon_not_digit|exact H]. Qed.
+Lemma all_digits_no_colon m : all_digits m -> ~ In ":"%char m.
+Proof. intros [_ H]. apply digits_no; [apply colon_not_digit|exact H]. Qed.
+
+Lemma valid_time_denotes t : is_valid_wall_time t = true -> exists n, time_denotes t n.
+Proof.
+  unfold is_valid_wall_time. rewrite orb_true_iff. intros [H|H].
+  - destruct (g_dplus_colon t) as [r|] eqn:E; [|discriminate].
+    apply g_dplus_colon_spec in E as (d & Hd & ->).
+    apply after_g1_spec in H as [(h & m & ss & Hh & Hm & Hs & ->)|(m & ss & Hm & Hs & ->)].
+    + eexists. right; right. exists d, h, m, ss. repeat split; eauto; apply Hd.
+    + eexists. right; left. exists d, m, ss. repeat split; eauto; apply Hd.
+  - apply after_g1_spec in H as [(h & m & ss & Hh & Hm & Hs & ->)|(m & ss & Hm & Hs & ->)].
+    + eexists. right; left. exists h, m, ss. pose proof (dd_all_digits h Hh) as [? ?]. repeat split; eauto.
+    + eexists. left. exists m, ss. repeat split; eauto.
+Qed.
+
+Lemma denotes_valid_time t n : time_denotes t n -> is_valid_wall_time t = true.
+Proof.
+  unfold is_valid_wall_time. rewrite orb_true_iff.
+  intros [(m & ss & Hm & Hs & -> & _)|[(h & m & ss & Hh & Hm & Hs & -> & _)|(d & h & m & ss & Hd & Hh & Hm & Hs & -> & _)]].
+  - right. apply after_g1_spec. right. exists m, ss. auto.
+  - left. rewrite (proj2 (g_dplus_colon_spec _ (m ++ ":"%char :: ss))) by eauto.
+    apply after_g1_spec. right. exists m, ss. auto.
+  - left. rewrite (proj2 (g_dplus_colon_spec _ (h ++ ":"%char :: m ++ ":"%char :: ss))) by eauto.
+    apply after_g1_spec. left. exists h, m, ss. auto.
+Qed.
+
+Lemma valid_time_iff t : is_valid_wall_time t = true <-> exists n, time_denotes t n.
+Proof. split; [apply valid_time_denotes|intros [n H]; now apply denotes_valid_time in H]. Qed.
+
+Lemma int_of_digits_ok p : all_digits p -> int_of_digits p = Ok (digits_val p).
+Proof.
+  intros [Hn Hd]. unfold int_of_digits. destruct p; [contradiction|].
+  now rewrite (proj2 (forallb_Forall _ _) Hd).
+Qed.
+
+Lemma denotes_time_secs t n : time_denotes t n -> time_secs t = Ok n.
+Proof.
+  unfold time_secs.
+  intros [(m & ss & Hm & Hs & -> & ->)|[(h & m & ss & Hh & Hm & Hs & -> & ->)|(d & h & m & ss & Hd & Hh & Hm & Hs & -> & ->)]].
+  - rewrite split_char_app by now apply dd_no_colon. rewrite split_char_none by now apply dd_no_colon.
+    cbn [rev app combine sum_parts].
+    rewrite !int_of_digits_ok by now apply dd_all_digits. cbn [bind]. f_equal. lia.
+  - rewrite split_char_app by now apply all_digits_no_colon.
+    rewrite split_char_app by now apply dd_no_colon. rewrite split_char_none by now apply dd_no_colon.
+    cbn [rev app combine sum_parts].
+    rewrite !int_of_digits_ok by (first [now apply dd_all_digits | assumption]). cbn [bind]. f_equal. lia.
+  - rewrite split_char_app by now apply all_digits_no_colon.
+    rewrite !split_char_app by now apply dd_no_colon. rewrite split_char_none by now apply dd_no_colon.
+    cbn [rev app combine sum_parts].
+    rewrite !int_of_digits_ok by (first [now apply dd_all_digits | assumption]). cbn [bind]. f_equal. lia.
+Qed.
+
+Lemma sp_time_secs_denotes t n : sp_time_secs t = Some n -> time_denotes t n.
+Proof.
+  unfold sp_time_secs. pose proof (join_split ":"%char t) as J.
+  destruct (split_char ":"%char t) as [|a [|b [|c [|d [|e l]]]]]; try discriminate; cbn in J; subst t.
+  - destruct (dd_b a) eqn:Ha; [|discriminate]. destruct (dd_b b) eqn:Hb; [|discriminate].
+    cbn. intros H; inversion H; subst n. apply dd_b_iff in Ha, Hb.
+    left. exists a, b. auto.
+  - destruct (digits_b a) eqn:Ha; [|discriminate]. destruct (dd_b b) eqn:Hb; [|discriminate].
+    destruct (dd_b c) eqn:Hc; [|discriminate].
+    cbn. intros H; inversion H; subst n. apply dd_b_iff in Hb, Hc. apply digits_b_iff in Ha.
+    right; left. exists a, b, c. auto.
+  - destruct (digits_b a) eqn:Ha; [|discriminate]. destruct (dd_b b) eqn:Hb; [|discriminate].
+    destruct (dd_b c) eqn:Hc; [|discriminate]. destruct (dd_b d) eqn:Hd; [|discriminate].
+    cbn. intros H; inversion H; subst n. apply dd_b_iff in Hb, Hc, Hd. apply digits_b_iff in Ha.
+    right; right. exists a, b, c, d. repeat split; auto; apply Ha.
+Qed.
+
+Lemma denotes_sp_time_secs t n : time_denotes t n -> sp_time_secs t = Some n.
+Proof.
+  unfold sp_time_secs.
+  intros [(m & ss & Hm & Hs & -> & ->)|[(h & m & ss & Hh & Hm & Hs & -> & ->)|(d & h & m & ss & Hd & Hh & Hm & Hs & -> & ->)]].
+  - rewrite split_char_app by now apply dd_no_colon. rewrite split_char_none by now apply dd_no_colon.
+    now rewrite (proj2 (dd_b_iff m) Hm), (proj2 (dd_b_iff ss) Hs).
+  - rewrite split_char_app by now apply all_digits_no_colon.
+    rewrite split_char_app by now apply dd_no_colon. rewrite split_char_none by now apply dd_no_colon.
+    now rewrite (proj2 (digits_b_iff h) Hh), (proj2 (dd_b_iff m) Hm), (proj2 (dd_b_iff ss) Hs).
+  - rewrite split_char_app by now apply all_digits_no_colon.
+    rewrite !split_char_app by now apply dd_no_colon. rewrite split_char_none by now apply dd_no_colon.
+    now rewrite (proj2 (digits_b_iff d) Hd), (proj2 (dd_b_iff h) Hh), (proj2 (dd_b_iff m) Hm),
+      (proj2 (dd_b_iff ss) Hs).
+Qed.
+
+Lemma sp_time_secs_iff t n : sp_time_secs t = Some n <-> time_denotes t n.
+Proof. split; [apply sp_time_secs_denotes|apply denotes_sp_time_secs]. Qed.
+
+(* a string has at most one duration *)
+Lemma time_denotes_fun t n n' : time_denotes t n -> time_denotes t n' -> n = n'.
+Proof. intros H H'. apply denotes_sp_time_secs in H, H'. congruence. Qed.
+Lemma mem_denotes_fun m q q' : mem_denotes m q -> mem_denotes m q' -> q = q'.
+Proof. intros H H'. apply denotes_mem_bytes in H, H'. congruence. Qed.
+
+Lemma time_secs_valid t : is_valid_wall_time t = true -> exists n, time_secs t = Ok n /\ time_denotes t n.
+Proof. intros H. apply valid_time_denotes in H as [n H]. exists n. split; [now apply denotes_time_secs|exact H]. Qed.
+
+(* ---------------------------------------------------------------- constructor validation *)
+Lemma valid_memory_sp m : is_valid_memory m = set_b (sp_mem_size m).
+Proof. unfold is_valid_memory. rewrite sp_mem_size_eq. now destruct (mem_bytes m). Qed.
+
+Lemma valid_time_sp t : is_valid_wall_time t = set_b (sp_time_secs t).
+Proof.
+  destruct (sp_time_secs t) as [n|] eqn:E; cbn.
+  - apply sp_time_secs_iff in E. now apply denotes_valid_time in E.
+  - destruct (is_valid_wall_time t) eqn:V; [|reflexivity].
+    apply valid_time_denotes in V as [n V]. apply sp_time_secs_iff in V. congruence.
+Qed.
+
+Lemma pos_b_leb z : pos_b (Some z) = negb (z <=? 0)%Z.
+Proof. cbn. apply Z.ltb_antisym. Qed.
+Lemma nonneg_b_ltb z : nonneg_b (Some z) = negb (z <? 0)%Z.
+Proof. cbn. apply Z.leb_antisym. Qed.
+Lemma truthy_pos z : (z <=? 0)%Z = false -> truthy_z (Some z) = true.
+Proof. intros H. apply Z.leb_gt in H. cbn. apply negb_true_iff, Z.eqb_neq. lia. Qed.
+
+(* the constructor accepts exactly the declaratively valid values (as a boolean identity) *)
+Lemma post_init_sp r : post_init r = if sp_valid r then Ok r else Err ValueError.
+Proof.
+  destruct r as [c cn n m g t p e md]. unfold post_init, sp_valid.
+  cbn [cpus cpus_per_node nodes memory gpus time partition extra_args mode].
+  destruct c as [c|].
+  1: rewrite pos_b_leb; destruct (c <=? 0)%Z eqn:Ec; cbn [negb andb]; [reflexivity|rewrite ?(truthy_pos c Ec)].
+  all: destruct g as [g|].
+  all: try (rewrite nonneg_b_ltb; destruct (g <? 0)%Z eqn:Eg; cbn [negb andb]; [reflexivity|]).
+  all: destruct n as [n|].
+  all: try (rewrite pos_b_leb; destruct (n <=? 0)%Z eqn:En; cbn [negb andb]; [reflexivity|rewrite ?(truthy_pos n En)]).
+  all: destruct cn as [cn|].
+  all: try (rewrite pos_b_leb; destruct (cn <=? 0)%Z eqn:Ecn; cbn [negb andb]; [reflexivity|rewrite ?(truthy_pos cn Ecn)]).
+  all: cbn [pos_b nonneg_b andb negb set_b truthy_z orb].
+  all: destruct m as [m|]; try (rewrite valid_memory_sp; destruct (set_b (sp_mem_size m)); cbn [negb andb]; [|reflexivity]).
+  all: destruct t as [t|]; try (rewrite valid_time_sp; destruct (set_b (sp_time_secs t)); cbn [negb andb]; [|reflexivity]).
+  all: reflexivity.
+Qed.
+
+Lemma pos_b_iff o : pos_b o = true <-> pos_opt o.
+Proof. destruct o; cbn; [apply Z.ltb_lt|tauto]. Qed.
+Lemma nonneg_b_iff o : nonneg_b o = true <-> nonneg_opt o.
+Proof. destruct o; cbn; [apply Z.leb_le|tauto]. Qed.
+Lemma set_b_iff {A} (o : option A) : set_b o = true <-> o <> None.
+Proof. destruct o; cbn; split; congruence. Qed.
+Lemma set_b_false {A} (o : option A) : set_b o = false <-> o = None.
+Proof. destruct o; cbn; split; congruence. Qed.
+
+Lemma sp_valid_iff r : sp_valid r = true <-> valid_res r.
+Proof.
+  unfold sp_valid, valid_res. rewrite !andb_true_iff, !pos_b_iff, nonneg_b_iff.
+  assert (Hm : match memory r with Some m => set_b (sp_mem_size m) | None => true end = true <->
+               (forall m, memory r = Some m -> exists q, mem_denotes m q)).
+  { destruct (memory r) as [m|].
+    - split.
+      + intros H m' E; inversion E; subst m'. destruct (sp_mem_size m) as [q|] eqn:Eq; [|discriminate].
+        exists q. now apply sp_mem_size_iff.
+      + intros H. destruct (H m eq_refl) as [q Hq]. apply sp_mem_size_iff in Hq. now rewrite Hq.
+    - split; [discriminate|reflexivity]. }
+  assert (Ht : match time r with Some t => set_b (sp_time_secs t) | None => true end = true <->
+               (forall t, time r = Some t -> exists n, time_denotes t n)).
+  { destruct (time r) as [t|].
+    - split.
+      + intros H t' E; inversion E; subst t'. destruct (sp_time_secs t) as [q|] eqn:Eq; [|discriminate].
+        exists q. now apply sp_time_secs_iff.
+      + intros H. destruct (H t eq_refl) as [q Hq]. apply sp_time_secs_iff in Hq. now rewrite Hq.
+    - split; [discriminate|reflexivity]. }
+  rewrite Hm, Ht, negb_true_iff, andb_false_iff, orb_true_iff, negb_true_iff, !set_b_false, !set_b_iff.
+  split.
+  - intros (((((((H1 & H2) & H3) & H4) & H5) & H6) & H7) & H8). repeat split; auto.
+    + intros [Hn Hc]. destruct H7; contradiction.
+    + intros Hc. destruct H8 as [H8|H8]; [contradiction|exact H8].
+  - intros (H1 & H2 & H3 & H4 & H5 & H6 & H7 & H8). repeat split; auto.
+    + destruct (nodes r); [|left; reflexivity]. destruct (cpus r); [|right; reflexivity].
+      exfalso. apply H7. split; discriminate.
+    + destruct (cpus_per_node r); [|left; reflexivity]. right. apply H8. discriminate.
+Qed.
+
+(* bad_rejected: the constructor accepts exactly the valid values, stores them unchanged,
+   and every rejection is a ValueError *)
+Lemma post_init_ok_iff a : (exists r, post_init a = Ok r) <-> valid_res a.
+Proof.
+  rewrite post_init_sp, <- sp_valid_iff. destruct (sp_valid a); split; eauto; try discriminate.
+  intros [r H]; discriminate.
+Qed.
+Lemma post_init_valid a : valid_res a -> post_init a = Ok a.
+Proof. intros H. apply sp_valid_iff in H. now rewrite post_init_sp, H. Qed.
+Lemma post_init_invalid a : ~ valid_res a -> post_init a = Err ValueError.
+Proof.
+  intros H. rewrite post_init_sp. destruct (sp_valid a) eqn:E; [|reflexivity].
+  apply sp_valid_iff in E. contradiction.
+Qed.
+Lemma post_init_ok_same a r : post_init a = Ok r -> r = a /\ valid_res a.
+Proof.
+  rewrite post_init_sp. destruct (sp_valid a) eqn:E; [|discriminate]. intros H; inversion H; subst.
+  split; [reflexivity|exact (proj1 (sp_valid_iff _) E)].
+Qed.
